@@ -2,6 +2,7 @@
 package c16
 
 import (
+	"regexp"
 	"encoding/json"
 	"fmt"
 	"strconv"
@@ -19,7 +20,7 @@ func init() {
 		Prop:   "C16",
 		Run:    run,
 		Replay: replay,
-		Rule: "E1 over (type x string): types are compiled from YANG text by the real compiler (every integer width signed/unsigned without range, with one range, with multi-part ranges touching the type bounds; decimal64 with every fraction-digits value 1..18 with and without ranges; strings with lengths and 0-2 patterns; enumeration; boolean; empty; identityref over a two-module hierarchy; unions nested two deep; custom error-message/error-app-tag) and Type.Validate is called on every probe string: every bound and bound +-1,2 units in canonical, '+'-signed, zero-padded and trailing-zero spellings, 18-20 digit values, lexical near misses, and for strings every string of 0-4 characters over {a,b,c,1,e-acute,U+1D11E}. " +
+		Rule: "E1 over (type x string): types are compiled from YANG text by the real compiler (every integer width signed/unsigned without range, with one range, with multi-part ranges touching the type bounds; decimal64 with every fraction-digits value 1..18 with and without ranges; strings with lengths and 0-2 patterns; enumeration; boolean; empty; identityref over a two-module hierarchy; unions nested two deep; custom error-message/error-app-tag) and Type.Validate is called on every probe string (on the type compiled alone, and again on the same type as one leaf of a module that holds all types of the run, string and integer types written as refinements of a shared three-level typedef chain): every bound and bound +-1,2 units in canonical, '+'-signed, zero-padded and trailing-zero spellings, 18-20 digit values, lexical near misses, and for strings every string of 0-4 characters over {a,b,c,1,e-acute,U+1D11E}. " +
 			"The reference decides membership exactly with math/big and character counts. On rejection the error must carry the path and the custom message/app-tag when defined. Non-trivial = a probe within 2 units of a bound, a multi-byte string, or a union/identityref probe.",
 		Bound: map[string]string{
 			"quick":    "about 110 types x their probe sets",
@@ -46,8 +47,9 @@ func moduleFor(spec yangval.Spec) map[string]string {
 }
 
 type rec struct {
-	Spec  yangval.Spec `json:"spec"`
-	Value string       `json:"value_quoted"`
+	Spec     yangval.Spec `json:"spec"`
+	Value    string       `json:"value_quoted"`
+	Combined bool         `json:"combined,omitempty"` // the type was one leaf of the module holding all types of the run
 }
 
 type pathGetter interface {
@@ -261,8 +263,34 @@ func typeOf(spec yangval.Spec) (schema.Type, string) {
 	return n.Type(), ""
 }
 
+// combinedModule: every type of the run as one leaf of a single module; string and integer types
+// are written as refinements of a shared three-level typedef chain of their base type, so that a
+// type's value space must not depend on the other users of the chain.
+var reBase = regexp.MustCompile(`^type (string|int8|int16|int32|int64|uint8|uint16|uint32|uint64)\b`)
+
+func combinedModule(all []yangval.Spec) map[string]string {
+	mods := moduleFor(yangval.Spec{Kind: "boolean"})
+	var b strings.Builder
+	for _, base := range []string{"string", "int8", "int16", "int32", "int64", "uint8", "uint16", "uint32", "uint64"} {
+		fmt.Fprintf(&b, " typedef %s-a { type %s; } typedef %s-b { type %s-a; } typedef %s-c { type %s-b; }", base, base, base, base, base, base)
+	}
+	for i, sp := range all {
+		y := reBase.ReplaceAllString(sp.Yang(), "type ${1}-c")
+		fmt.Fprintf(&b, " leaf l%d { %s }", i, y)
+	}
+	mods["a"] = strings.Replace(mods["a"], " leaf l { type boolean; }", b.String(), 1)
+	return mods
+}
+
 func run(c *engine.Ctx) {
-	for si, spec := range specs(c.Quick()) {
+	all := specs(c.Quick())
+	comb := gen.Compile(combinedModule(all), gen.Options{})
+	if !comb.OK() {
+		if c.Shard == 0 {
+			c.Report(engine.Violation{Key: "types-do-not-compile-together", Witness: "all types of the run as leaves of one module", Detail: fmt.Sprintf("%s %v %v", comb.Verdict(), comb.Err, comb.Panic)})
+		}
+	}
+	for si, spec := range all {
 		if c.Expired() {
 			return
 		}
@@ -290,6 +318,15 @@ func run(c *engine.Ctx) {
 				c.Nontrivial()
 			}
 			vs := checkOne(t, spec, v)
+			if comb.OK() && len(vs) == 0 {
+				if n := comb.MS.Child(fmt.Sprintf("l%d", si)); n != nil {
+					for _, x := range checkOne(n.Type(), spec, v) {
+						x.Key += ":in-one-module-with-the-other-types"
+						x.Replay = engine.JSON(rec{Spec: spec, Value: strconv.Quote(v), Combined: true})
+						vs = append(vs, x)
+					}
+				}
+			}
 			c.Outcome(fmt.Sprintf("%s:member=%v:viol=%v", spec.Kind, want, len(vs) > 0))
 			for _, x := range vs {
 				c.Report(x)
@@ -307,6 +344,25 @@ func replay(c *engine.Ctx, sub string, raw json.RawMessage) []engine.Violation {
 		return []engine.Violation{{Key: "harness-bad-replay-file"}}
 	}
 	v, _ := strconv.Unquote(r.Value)
+	if r.Combined {
+		for _, quick := range []bool{true, false} {
+			all := specs(quick)
+			for i, sp := range all {
+				if sp.Yang() != r.Spec.Yang() {
+					continue
+				}
+				comb := gen.Compile(combinedModule(all), gen.Options{})
+				if !comb.OK() {
+					return []engine.Violation{{Key: "types-do-not-compile-together", Detail: fmt.Sprint(comb.Err)}}
+				}
+				if vs := checkOne(comb.MS.Child(fmt.Sprintf("l%d", i)).Type(), r.Spec, v); len(vs) > 0 {
+					vs[0].Key += ":in-one-module-with-the-other-types"
+					return vs
+				}
+			}
+		}
+		return nil
+	}
 	t, msg := typeOf(r.Spec)
 	if t == nil {
 		return []engine.Violation{{Key: "type-does-not-compile", Detail: msg}}
